@@ -120,9 +120,17 @@ CLAIMED = {
             "two of microseconds to 2^51 and 100 years +-1 us); all 584 strings of length <= 3 over an 8-letter alphabet as "
             "ids / names through validators and key encodings.",
             FAKES + " Finite alphabets; payloads with the reserved bucket marker excluded.", "DESIGN.md 4 C07"),
+    "C20": ("model_checking", "client byte strings, fragmentations, consumer failure and stop interleaved with a running worker on a virtual TCP model; loopback conformance",
+            "Valid request, every truncation, wrong path / method, binary, oversized and pipelined requests x every 2-split "
+            "(3-splits thorough) x simultaneous connections x 3 settings against a worker with the health server; consumer "
+            "failure and stop swept over every loop iteration with a connection opened before: correct status for whole "
+            "requests, 503 after a failure also on earlier connections, port open exactly while running, server still "
+            "answers afterwards, jobs equal the traffic-free twin. The TCP model is replayed against the real server over loopback.",
+            "Virtual TCP model (validated per request against a loopback socket); kernel-level behaviour not covered; in-memory broker.",
+            "DESIGN.md 4 C20"),
 }
 
-PENDING_REASON = "check not built yet in this revision of /verif (see DESIGN.md section 4 for the plan)"
+PENDING_REASON = "not claimed"
 
 ALL = [f"C{i:02d}" for i in range(1, 21)]
 
